@@ -19,7 +19,9 @@ SIM = os.path.join(ROOT, "sim")
 TARGET = os.path.join(ROOT, "target")
 WORK = os.path.join(ROOT, "work")
 REPLAYS = os.path.join(ROOT, "replays")
-EVIDENCE = os.path.join(ROOT, "evidence")
+# mutation runs (tools/try_mutation.sh, tools/mutation_matrix.py) write their evidence elsewhere so that the committed
+# evidence always comes from a run on the unchanged tree
+EVIDENCE = os.environ.get("VERIF_EVIDENCE_DIR") or os.path.join(ROOT, "evidence")
 KNOWN = os.path.join(ROOT, "known_findings.json")
 
 # property -> list of (world binary, share of the run budget); budgets = number of simulated runs
